@@ -15,6 +15,9 @@ CONSTANTS CMax,          \* native points lie on 0..CMax
           TES, TShift,   \* edges of single target bins: {t - TShift : t \in TES}
           TESp,          \* edges of the target bins used in pairs (both orders)
           FModes,        \* which spectra: subset of {"const", "gen1", "gen2"}
+          EvalRoutes,    \* the routes taken (in the specification "bindown", "bin_model" and "out_spectrum" are the same
+                         \* computation, as are "bindown_2d" and "out_tau": the quick configuration takes one of each)
+          AllOrders,     \* TRUE: ascending, descending and a mixed order of the native points; FALSE: the first two
           Slip, SlipOn,  \* "none" or a slip of BinRoutes!Slips, and the routes it sits on
           Export
 VARIABLES phase, cs, tgt, fm, route
@@ -40,29 +43,37 @@ MO == LET n == Len(cs)  f == Eager(Flux(fm, n)) IN
 
 Init == /\ phase = "in" /\ cs \in AllPts /\ tgt \in AllTgt /\ fm \in FModes /\ route = "none"
 Eval(rt) == /\ phase = "in" /\ phase' = "done" /\ route' = rt /\ UNCHANGED <<cs, tgt, fm>>
-Next == \E rt \in Routes : Eval(rt)
+Next == \E rt \in EvalRoutes : Eval(rt)
 Spec == Init /\ [][Next]_vars
 Done == phase = "done"
 
-Orders == {[i \in 1..Len(cs) |-> p[i]] : p \in Permutations(1..Len(cs))}
+\* the order in which the native points are handed over: ascending, descending and (>= 3 points) one mixed order -- every
+\* permutation is quantified in MC_Binning (AlgRefinesDef); here the order is crossed with the route
+Ident == Eager([i \in 1..Len(cs) |-> i])
+Rev   == Eager([i \in 1..Len(cs) |-> Len(cs) + 1 - i])
+Mixed == Eager([i \in 1..Len(cs) |-> IF i = Len(cs) THEN 1 ELSE i + 1])
+Orders == IF AllOrders THEN {Ident, Rev, Mixed} ELSE {Ident, Rev}
 RouteRefinesDef == Done =>
     \A p \in Orders : RouteAgrees(RouteRun(route, cs, p, tgt, MO, Slip, SlipOn), route, cs, tgt, MO, "half")
 \* on uniform grids the two readings are the same bins: nothing is left to interpretation there
 ReadingsCoincide == UniformPts(cs) => DerivedBins(cs, "half") = DerivedBins(cs, "edges")
 \* the documented recipe (the caller works the widths out with compute_bin_edges and hands them over with the points, in
 \* any order) is the same binning as handing over nothing
-RecipeSame == Done => \A p \in Orders :
+RecipeSame == (Done /\ route = "bindown_w") => \A p \in Orders :
     RouteRun("bindown_w", cs, p, tgt, MO, "none", {}) = RouteRun("bindown", cs, p, tgt, MO, "none", {})
 WellFormedR == /\ Len(cs) >= 2 /\ \A i \in 1..(Len(cs) - 1) : cs[i] < cs[i + 1]
                /\ \A k \in 1..Len(tgt) : tgt[k][1] < tgt[k][2]
 FitsR == Done => \A r \in 1..Len(RouteWants(route, MO)) : \A k \in 1..Len(tgt) :
-    LET x == RouteRun(route, cs, [i \in 1..Len(cs) |-> i], tgt, MO, "none", {})[r][k] IN x.k = "num" => Fits(x.v) /\ Fits(x.e2)
+    LET x == RouteRun(route, cs, Ident, tgt, MO, "none", {})[r][k] IN x.k = "num" => Fits(x.v) /\ Fits(x.e2)
 
 \* ---------------------------------------------------------------------- export (one vector per input, phase "in")
-Ident == [i \in 1..Len(cs) |-> i]
-ExposedOn(s) == {rt \in Routes : \E p \in Orders :
-                    LET res == RouteRun(rt, cs, p, tgt, MO, s, {rt})
-                    IN  \A rd \in Readings : ~RouteAgrees(res, rt, cs, tgt, MO, rd)}
+\* (a slip of the order shows only when the points are handed over neither ascending nor descending -- the mid-point
+\* widths of a reversed grid are the reversed widths --; the others in any order)
+RouteClass(rt) == IF rt = "bindown_w" THEN rt ELSE IF TwoD(rt) THEN "out_tau" ELSE "out_spectrum"     \* same computation
+ExposedClass(s, rt) == LET res == RouteRun(rt, cs, IF s = "unsortedwidth" THEN Mixed ELSE Ident, tgt, MO, s, {rt})
+                       IN  \A rd \in Readings : ~RouteAgrees(res, rt, cs, tgt, MO, rd)
+ExposedOn(s) == LET X == {rt \in (IF s = "fluxfortau" THEN {"out_tau"} ELSE {"bindown_w", "out_spectrum", "out_tau"}) : ExposedClass(s, rt)}
+                IN  {rt \in Routes : RouteClass(rt) \in X}
 RECURSIVE SetToSeqS(_)
 SetToSeqS(S) == IF S = {} THEN <<>> ELSE LET x == CHOOSE x \in S : TRUE IN <<x>> \o SetToSeqS(S \ {x})
 ExpR(rd) == LET N == DerivedBins(cs, rd)  st == SortedT(tgt) IN
